@@ -292,11 +292,10 @@ pub extern "sysv64" fn memory_read_byte(areas: *const MemoryAreas, addr: u16) ->
     return 0;
   }
   if addr < 0xff80 { // I/O
-    if addr == 0xff46 {
-      // TODO: OAM should return last written value
-    } else {
-      return memory_areas.io.get_byte(addr);
-    }
+    // 0xff46 (OAM DMA) has no readable state yet: like the other unassigned
+    // registers it reads 0xff through get_byte
+    // TODO: OAM should return last written value
+    return memory_areas.io.get_byte(addr);
   }
   if addr == 0xffff { // Interrupt Mask
     return memory_areas.io.interrupt_mask;
